@@ -579,6 +579,148 @@ Definition run_query_range (lo hi : Z) (q : query) (db : list series) : list (st
 Definition run_arith_range (lo hi : Z) (op : binop) (q1 q2 : query) (db : list series) : list (str * list (Z * Q)) :=
   run_arith op q1 q2 (clip_db lo hi db).
 
+(* ---------- nested aggregations:  f2 g2 (f1 g1 (name{ms}))  ----------
+   parser.go walks the expression with parser.Inspect, OUTER aggregation first.  Every AggregateExpr
+   runs handleAggregateExpr on the one shared MetricsQuery: the flags accumulate, every grouping label
+   appends a key=* filter (NotInitialGroup = "an aggregation is nested below this one"), and the
+   aggregation is put at the HEAD of the SubsequentAggs chain, so the chain runs innermost first.
+   [pstate] is that shared MetricsQuery: GetAllLabels, SelectAllSeries, Groupby, AggWithoutGroupBy,
+   GroupByMetricName, TagsFilters (with NotInitialGroup). *)
+Record pstate := { p_gal : bool; p_sel : bool; p_groupby : bool; p_nogrp : bool; p_byname : bool;
+                   p_tfs : list (tfilter * bool) }.
+
+(* parsePromQLQuery: the matchers of the selector come first (extractSelectors) *)
+Definition p_init (ms : list matcher) : pstate :=
+  {| p_gal := false; p_sel := false; p_groupby := false; p_nogrp := false; p_byname := false;
+     p_tfs := map (fun m => (of_matcher m, false)) ms |}.
+
+Definition is_count (f : aggfn) : bool := match f with ACount => true | _ => false end.
+
+(* handleAggregateExpr *)
+Definition agg_step (f : aggfn) (g : grouping) (nested : bool) (p : pstate) : pstate :=
+  let gal1 := p_gal p || is_count f in
+  let grouped := negb (Nat.eqb (length (group_list g)) 0) in
+  let sel1 := if grouped then p_sel p else gal1 in            (* else: AggWithoutGroupBy, SelectAllSeries = GetAllLabels *)
+  let w := is_without g in
+  {| p_gal := gal1 || w; p_sel := sel1 || w;
+     p_groupby := p_groupby p || grouped; p_nogrp := p_nogrp p || negb grouped;
+     p_byname := p_byname p || mem_str name_label (group_list g);
+     p_tfs := p_tfs p ++ map (fun k => (star_filter k w true, nested))
+                             (filter (fun k => negb (str_eqb k name_label)) (group_list g)) |}.
+
+(* handleVectorSelector: (SelectAllSeries, GetAllLabels) *)
+Definition vs_step (p : pstate) : bool * bool :=
+  if p_sel p then (true, p_gal p)
+  else
+    let sel := if (p_nogrp p || p_byname p) && negb (Nat.eqb (length (p_tfs p)) 0) then false
+               else negb (existsb (fun t => f_groupkey (fst t) && negb (snd t)) (p_tfs p)) in
+    (sel, p_gal p || (sel && negb (p_groupby p) && negb (p_nogrp p))).
+
+Record nquery := { n_f2 : aggfn; n_g2 : grouping; n_f1 : aggfn; n_g1 : grouping; n_name : str; n_ms : list matcher }.
+
+Definition nest_state (q : nquery) : pstate :=
+  agg_step (n_f1 q) (n_g1 q) false (agg_step (n_f2 q) (n_g2 q) true (p_init (n_ms q))).
+Definition nest_flags (q : nquery) : bool * bool := vs_step (nest_state q).
+(* matchers ++ key=* filters of the OUTER clause ++ key=* filters of the INNER clause: a label named in
+   both clauses is filtered twice, ReorderTagFilters keeps one filter per key *)
+Definition nest_filters (q : nquery) : list tfilter := map fst (p_tfs (nest_state q)).
+
+(* ApplyMetricsQuery + runTSIDSearch for given flags and filters ([tracked] is the instance for one layer) *)
+Definition tracked_with (sel_all gal : bool) (tfs : list tfilter) (name : str) (db : list series) : tracker :=
+  let '(others, stars) := reorder (apply_filters sel_all tfs db) in
+  let nvf := negb (Nat.eqb (length others) 0) in      (* numValueFilters > 0: counted AFTER duplicates are dropped *)
+  snd (fold_left (step_filter sel_all gal nvf name db) (others ++ stars) (true, [])).
+
+Definition tracked_nest (q : nquery) (db : list series) : tracker :=
+  let '(sel_all, gal) := nest_flags q in
+  tracked_with sel_all gal (nest_filters q) (n_name q) db.
+
+(* first layer = DownsampleResults + AggregateResults with the head of the chain (the INNERMOST aggregation,
+   which is also the down-sampler's function): the answer of one aggregation over a tracker *)
+Definition layer1 (name : str) (fn : aggfn) (fields : list str) (without : bool)
+           (db : list series) (tr : tracker) : list (str * list (Z * Q)) :=
+  let ts := all_times db tr in
+  let ids := match fn, fields with
+             | ACount, [] => [name ++ [c_lbrace]]
+             | _, _ => dedup_str (map (fun e => agg_series_id (snd e) fields without) tr)
+             end in
+  flat_map (fun gid =>
+    match flat_map (fun t => match agg_at name fn fields without db tr gid t with Some v => [(t, v)] | None => [] end) ts with
+    | [] => []
+    | l => [(gid, l)]
+    end) ids.
+
+(* further layers = ProcessMQueryAggsChain / ApplyAggregationToResults: the aggregation is applied to the
+   RESULT of the layer below (id string -> timestamp -> value); every sample becomes a running entry
+   (count 1, value); the group id is cut out of the lower layer's OUTPUT id by the same getAggSeriesId *)
+Definition sample_at (t : Z) (pts : list (Z * Q)) : list Q :=
+  map snd (filter (fun p => Z.eqb (fst p) t) pts).
+
+Definition qsum (l : list Q) : Q := fold_left Qplus l 0%Q.
+Definition qmin2 (ret v : Q) : Q := if Qle_bool ret v then ret else v.     (* if v < ret { ret = v } *)
+Definition qmax2 (ret v : Q) : Q := if Qle_bool v ret then ret else v.     (* if v > ret { ret = v } *)
+Definition qmin_list (l : list Q) : Q := match l with [] => 0%Q | x :: r => fold_left qmin2 r x end.
+Definition qmax_list (l : list Q) : Q := match l with [] => 0%Q | x :: r => fold_left qmax2 r x end.
+
+(* reduceRunningEntries on entries with runningCount = 1 *)
+Definition reduce_q (fn : aggfn) (vs : list Q) : Q :=
+  match fn with
+  | ASum => Qred (qsum vs)
+  | AAvg => Qred (qsum vs / inject_Z (Z.of_nat (length vs)))
+  | AMin => qmin_list vs
+  | AMax => qmax_list vs
+  | ACount => 0%Q
+  end.
+
+(* the samples at time t of the lower-layer series that fall into output group [gid] *)
+Definition layer2_vals (fields : list str) (without : bool) (r1 : list (str * list (Z * Q))) (gid : str) (t : Z) : list Q :=
+  flat_map (fun e => if str_eqb (agg_series_id (fst e) fields without) gid then sample_at t (snd e) else []) r1.
+
+Definition layer2_at (name : str) (fn : aggfn) (fields : list str) (without : bool)
+           (r1 : list (str * list (Z * Q))) (gid : str) (t : Z) : option Q :=
+  match fn, fields with
+  | ACount, [] =>                                   (* computeAggCount without fields: series of the lower layer with a sample at t *)
+    if str_eqb gid (name ++ [c_lbrace]) then
+      match flat_map (fun e => sample_at t (snd e)) r1 with
+      | [] => None
+      | l => Some (inject_Z (Z.of_nat (length l)))
+      end
+    else None
+  | ACount, _ =>
+    match layer2_vals fields without r1 gid t with
+    | [] => None
+    | l => Some (inject_Z (Z.of_nat (length l)))
+    end
+  | _, _ =>
+    match layer2_vals fields without r1 gid t with
+    | [] => None
+    | l => Some (reduce_q fn l)
+    end
+  end.
+
+Definition layer2 (name : str) (fn : aggfn) (fields : list str) (without : bool)
+           (r1 : list (str * list (Z * Q))) : list (str * list (Z * Q)) :=
+  let ts := dedup_z (flat_map (fun e => map fst (snd e)) r1) in
+  let ids := match fn, fields with
+             | ACount, [] => [name ++ [c_lbrace]]
+             | _, _ => dedup_str (map (fun e => agg_series_id (fst e) fields without) r1)
+             end in
+  flat_map (fun gid =>
+    match flat_map (fun t => match layer2_at name fn fields without r1 gid t with Some v => [(t, v)] | None => [] end) ts with
+    | [] => []
+    | l => [(gid, l)]
+    end) ids.
+
+(* the answer of the inner aggregation inside the nested query (its tracker is the nested query's tracker) *)
+Definition nest_inner (q : nquery) (db : list series) : list (str * list (Z * Q)) :=
+  layer1 (n_name q) (n_f1 q) (group_list (n_g1 q)) (is_without (n_g1 q)) db (tracked_nest q db).
+
+Definition run_nest (q : nquery) (db : list series) : list (str * list (Z * Q)) :=
+  layer2 (n_name q) (n_f2 q) (group_list (n_g2 q)) (is_without (n_g2 q)) (nest_inner q db).
+
+Definition run_nest_range (lo hi : Z) (q : nquery) (db : list series) : list (str * list (Z * Q)) :=
+  run_nest q (clip_db lo hi db).
+
 End WithRegex.
 
 (* ---------- guards of the selection theorem (exact, executable) ---------- *)
@@ -620,3 +762,16 @@ Definition extract_guard (name : str) (ls : labels) (f : str) : bool :=
 Definition without_guard (l : list str) (ms : list matcher) : bool :=
   nodup_strb l && negb (mem_str name_label l) &&
   forallb (fun k => negb (mem_str k (map m_key ms))) l.
+
+(* ---------- guard of the selection theorem for nested aggregations ---------- *)
+Definition nest_keys (q : nquery) : list str :=
+  filter (fun k => negb (str_eqb k name_label)) (group_list (n_g2 q)) ++
+  filter (fun k => negb (str_eqb k name_label)) (group_list (n_g1 q)).
+
+(* the selector's guard; not the mode "all series, no labels" of  fn (fn (m))  (ids are just "name{");
+   every series of the metric carries every label named in a grouping clause.
+   NOT required: distinct labels across or inside the two clauses, clauses disjoint from the matchers. *)
+Definition nest_guard (q : nquery) (db : list series) : bool :=
+  select_guard (n_name q) (n_ms q) db &&
+  negb (negb (snd (nest_flags q)) && fst (nest_flags q)) &&
+  forallb (fun k => forallb (fun s => negb (str_eqb (s_name s) (n_name q)) || has_key k s) db) (nest_keys q).
